@@ -5,7 +5,9 @@ import (
 	"sort"
 	"strings"
 
+	"verif/h/crashx"
 	"verif/h/drv"
+	"verif/h/model"
 )
 
 // ---- C18: blocking consume ----------------------------------------------
@@ -484,6 +486,162 @@ func JudgeIndexFiles(p Program, x *Execution) string {
 		return "after the concurrent calls and Close: " + x.IndexDis[0]
 	}
 	return Linearizable(p, x)
+}
+
+// ------------------------------------------------------------ C20 under concurrency
+
+// Programs20: Log.Backup racing with publishes, deletes and GC. The result of a Backup call is
+// what the backup directory opens to; linearizability then says it is the log as it was at
+// one moment between the call and its return.
+func Programs20(tier string) []Program {
+	var ps []Program
+	add := func(init []string, ts ...[]string) {
+		ps = append(ps, Program{Name: fmt.Sprintf("k%03d", len(ps)), Cfg: cfgBoth, Init: init, Threads: ts})
+	}
+	for _, st := range inits {
+		others := []string{"Publish:1", "Publish:2"}
+		if st.next > 0 {
+			others = append(others, "Delete:0", "Delete:1", "Delete:0,1", "GC:0", "Get:0")
+		}
+		if st.next > 4 {
+			others = append(others, "Delete:4", "Delete:2", "Delete:3,4")
+		}
+		for _, o := range others {
+			add(st.init, []string{"Backup:0"}, []string{o})
+		}
+		add(st.init, []string{"Backup:0"}, []string{"Backup:1"})
+		add(st.init, []string{"Backup:0", "Backup:0"}, []string{"Publish:1"})
+		add(st.init, []string{"Backup:0"}, []string{"Publish:1", "Publish:1"})
+		if st.next > 0 {
+			add(st.init, []string{"Backup:0"}, []string{"Publish:1"}, []string{"Delete:1"})
+			if tier == "thorough" {
+				add(st.init, []string{"Backup:0"}, []string{"Delete:0"}, []string{"Delete:1"})
+				add(st.init, []string{"Backup:0"}, []string{"Backup:1"}, []string{"Delete:0"})
+			}
+		}
+	}
+	return ps
+}
+
+// ------------------------------------------------------------ C06 under concurrency
+
+var cfgAS = drv.Cfg{Keys: true, Times: true, Rollover: roll2, Ver: 2, AutoSync: true}
+
+// Programs06: Sync (and, under AutoSync, Publish) racing with publishes and a delete.
+func Programs06(tier string) []Program {
+	var ps []Program
+	add := func(cfg drv.Cfg, init []string, ts ...[]string) {
+		ps = append(ps, Program{Name: fmt.Sprintf("d%03d", len(ps)), Cfg: cfg, Init: init, Threads: ts, Durable: true})
+	}
+	for _, in := range [][]string{nil, {"P:0/1/u", "P:1/1/u", "S"}, {"P:0/1/u", "P:1/1/u", "P:0/1/u", "S"}} {
+		add(cfgBoth, in, []string{"Sync"}, []string{"Publish:1"})
+		add(cfgBoth, in, []string{"Sync"}, []string{"Publish:2"})
+		add(cfgBoth, in, []string{"Sync"}, []string{"Publish:1", "Publish:1"})
+		add(cfgBoth, in, []string{"Sync", "Sync"}, []string{"Publish:1"})
+		add(cfgBoth, in, []string{"Publish:1", "Sync"}, []string{"Publish:1"})
+		add(cfgBoth, in, []string{"Sync"}, []string{"Publish:1"}, []string{"Publish:1"})
+		add(cfgAS, in, []string{"Publish:1"}, []string{"Publish:1"})
+		add(cfgAS, in, []string{"Publish:1"}, []string{"Publish:2"})
+		add(cfgAS, in, []string{"Publish:1"}, []string{"Sync"})
+		if tier == "thorough" {
+			add(cfgAS, in, []string{"Publish:1"}, []string{"Publish:1"}, []string{"Publish:1"})
+			add(cfgBoth, in, []string{"Sync"}, []string{"Sync"}, []string{"Publish:1"})
+		}
+		if len(in) > 0 {
+			add(cfgBoth, in, []string{"Sync"}, []string{"Delete:1"})
+			add(cfgBoth, in, []string{"Publish:1", "Sync"}, []string{"Delete:0"})
+			add(cfgAS, in, []string{"Publish:1"}, []string{"Delete:1"})
+		}
+	}
+	return ps
+}
+
+// JudgeDurable is the oracle of the concurrent part of C06: at the moment a Sync (or a
+// Publish on an AutoSync log) returned w, no tail-loss image of the directory may lose a
+// message below w that is live at the end of the execution, show anything that was never
+// there, or bring NextOffset below w.
+func JudgeDurable(p Program, x *Execution) string {
+	if msg := Linearizable(p, x); msg != "" {
+		return msg
+	}
+	if x.Journal == nil {
+		return ""
+	}
+	// everything that was ever live: the initial state plus what the publishes returned
+	ever := map[int64]model.Msg{}
+	for _, m := range x.Init.Live {
+		ever[m.Off] = m
+	}
+	for _, m := range x.Final {
+		ever[m.Off] = m
+	}
+	finalLive := map[int64]bool{}
+	for _, m := range x.Final {
+		finalLive[m.Off] = true
+	}
+	deletes := false
+	for ti, t := range p.Threads {
+		for ci, c := range t {
+			if strings.HasPrefix(c, "Delete") {
+				deletes = true
+				for _, m := range x.Results[ti][ci].Msgs {
+					ever[m.Off] = m
+				}
+			}
+		}
+	}
+	for ti, t := range p.Threads {
+		for ci, c := range t {
+			r := x.Results[ti][ci]
+			acked := r.Err == "ok" && (c == "Sync" || (p.Cfg.AutoSync && strings.HasPrefix(c, "Publish")))
+			if !acked {
+				continue
+			}
+			w := r.Next
+			for _, lo := range crashx.TailLoss(x.Journal, r.JLen, p.Cfg, "quick") {
+				where := fmt.Sprintf("power loss right after %s of thread %d returned %d (%s)", c, ti, w, lo.Desc)
+				if lo.OpenErr != "" {
+					return where + ": Open(Recover) failed: " + lo.OpenErr
+				}
+				if lo.ReadErr != "" {
+					return where + ": reading the recovered log failed: " + lo.ReadErr
+				}
+				got := map[int64]bool{}
+				last := int64(-1)
+				for _, m := range lo.Walk {
+					e, ok := ever[m.Off]
+					if !ok || e.T != m.T || string(e.Key) != string(m.Key) || string(e.Val) != string(m.Val) {
+						return fmt.Sprintf("%s: the recovered log shows %v, which was never published like that", where, m)
+					}
+					if m.Off <= last {
+						return fmt.Sprintf("%s: offsets of the recovered log are not increasing (%d after %d)", where, m.Off, last)
+					}
+					last = m.Off
+					got[m.Off] = true
+				}
+				for off := range finalLive {
+					if off < w && !got[off] {
+						return fmt.Sprintf("%s: offset %d (< %d) is live but missing from the recovered log %v", where, off, w, offsOf(lo.Walk))
+					}
+				}
+				if !deletes {
+					// without deletes the recovered log is a prefix of the final one
+					for i, m := range lo.Walk {
+						if i >= len(x.Final) || x.Final[i].Off != m.Off {
+							return fmt.Sprintf("%s: the recovered log %v is not a prefix of the final log %v", where, offsOf(lo.Walk), offsOf(x.Final))
+						}
+					}
+				}
+				if lo.Next < w {
+					return fmt.Sprintf("%s: NextOffset %d of the recovered log is below %d", where, lo.Next, w)
+				}
+				if lo.Durable != "" {
+					return where + ": " + lo.Durable
+				}
+			}
+		}
+	}
+	return ""
 }
 
 var _ = drv.BaseT
